@@ -16,7 +16,7 @@ pub fn multiply<T: InterpreterTrait>(interpreter: &mut T) -> Result<(), RuntimeE
 }
 
 pub fn divide<T: InterpreterTrait>(interpreter: &mut T) -> Result<(), RuntimeError> {
-    reduce_a_b_into_a(interpreter, |a, b| a.divide(b))
+    reduce_a_b_into_a(interpreter, |a, b| a.divide_fp(b))
 }
 
 pub fn modulo<T: InterpreterTrait>(interpreter: &mut T) -> Result<(), RuntimeError> {
